@@ -160,7 +160,7 @@ pub fn c10(ctx: &mut Ctx) {
     {
         let depth = ctx.tier.pick(3u32, 4u32);
         let bases: Vec<Vec<u8>> = gens::base_set().iter().filter(|p| matches!(p, Pkt::Sdes { .. })).map(wire::encode).collect();
-        ctx.bound("iterator histories", format!("Sdes::chunks and SdesChunk::items of the {} SDES packets of the base set: all call sequences of length <= {} over {{next, nth(0), nth(1), nth(2), nth(7), take(2).count()}} x 4 endings", bases.len(), depth));
+        ctx.bound("iterator histories", format!("Sdes::chunks and SdesChunk::items of the {} SDES packets of the base set: all call sequences of length <= {} over {{next, nth(0), nth(1), nth(2), nth(7), take(2).count()}} x 10 endings, size_hint() after every call", bases.len(), depth));
         ctx.run_space("iterator-histories", bases.len() as u64, |idx, l| {
             let img = &bases[idx as usize];
             l.evals += 1;
